@@ -104,6 +104,13 @@ CHECKS['C03'] = dict(
     design_ref='DESIGN.md section 3 C03',
     note='dict backend only in this check (the maildir backend stores through email objects and rewrites CRLF: not claimed here); strings over the token alphabet and the listed boundaries, not arbitrary 64 KiB contents; messages whose FETCH response is itself malformed (C07/C06 known findings) are counted as skipped; two recorded known findings about BODYSTRUCTURE part sizes (pinned by the suite)',
     technique='bounded-exhaustive enumeration of message byte strings through APPEND/FETCH/COPY/MOVE on the implementation with byte-equality oracles')
+CHECKS['C18'] = dict(
+    engine='E8 bounded-exhaustive enumeration (vf/checks/c18.py)',
+    category='exploration',
+    text='(a) For 26 command templates with string-typed arguments (LOGIN, SELECT, EXAMINE, CREATE, DELETE, RENAME, SUBSCRIBE, STATUS, LIST, LSUB, APPEND, COPY, MOVE, SEARCH SUBJECT/HEADER/FROM/TO/TEXT/BODY/CHARSET, FETCH HEADER.FIELDS, ID, ...) the full product of spellings {atom where legal, quoted, synchronising literal with the continuation exchange, non-synchronising literal} of all arguments simultaneously x 3 letter cases of the command word (+ doubled spaces where the server accepts them) is executed, each on a fresh identical world; every sibling must produce the same transcript (modulo tag, continuation requests and random object ids) and the same canonical glass-box state as the reference spelling. (b) Every mailbox name of length <= 3 (thorough 4) over 17 characters (ASCII, &, -, delimiter, +, comma, ~, LF, TAB, DEL, Latin-1, CJK, astral, and four characters chosen by the base64 digit class of their UTF-16 form) is created through a literal; LIST and STATUS must report a spelling that an independent RFC 3501 5.1.3 decoder maps back to the name; pymap\'s encoder must agree with the independent encoder and decode(encode(s)) = s for all strings to length 5 (thorough 6) over 11 characters. (c) Seam round trips: for bounded domains of SequenceSet, Flag, DateTime, QuotedString, LiteralString, AString, Mailbox, Number, ObjectId, FetchAttribute, StatusAttribute, parse(bytes + tail) must consume exactly its own bytes for 5 trailing contexts and bytes(parse(x)) must re-parse to the same value.',
+    design_ref='DESIGN.md section 3 C18',
+    note='dict backend with demo data; fetch attributes re-serialise to their response form by design (.PEEK and partial length dropped), so they are only checked for exact consumption',
+    technique='bounded-exhaustive enumeration of wire spellings, sibling-differential oracle on identical worlds, independent modified-UTF-7 codec')
 NA = {}
 
 def main():
